@@ -5,6 +5,8 @@ package main
 
 import (
 	"fmt"
+	"os"
+	"runtime"
 	"go/ast"
 	"go/token"
 	"go/types"
@@ -329,8 +331,13 @@ func (e *Enc) globalRef(g *ssa.Global) Term {
 	e.decls = append(e.decls, fmt.Sprintf("(declare-fun %s () Int)", name))
 	t := Term{name, SInt}
 	e.asserts = append(e.asserts, fmt.Sprintf("(and (> %s 0) (< %s 1000))", name, name))
+	var others []string
 	for _, o := range e.globals {
-		e.asserts = append(e.asserts, fmt.Sprintf("(not (= %s %s))", name, o.S))
+		others = append(others, o.S)
+	}
+	sort.Strings(others)
+	for _, o := range others {
+		e.asserts = append(e.asserts, fmt.Sprintf("(not (= %s %s))", name, o))
 	}
 	e.globals[g] = t
 	return t
@@ -528,7 +535,20 @@ func (f *FnEnc) enterBlock(b *ssa.BasicBlock, entryReach Term, entrySt *State) {
 		if !ok {
 			break
 		}
-		f.vals[phi] = e.freshVal(phi.Type(), f.name(phi)+"@loop", f.st.Alloc)
+		nv := e.freshVal(phi.Type(), f.name(phi)+"@loop", f.st.Alloc)
+		f.vals[phi] = nv
+		if phi.Comment == "rangeindex" {
+			// hidden index of a range loop: starts at -1, is incremented by one per iteration and an
+			// iteration is entered only while index+1 < bound
+			f.assume(tLe(tInt(-1), nv.(Term)))
+			if bound := rangeBound(b, phi); bound != nil {
+				if bt, ok := f.vals[bound].(Term); ok {
+					f.assume(tOr(tLt(nv.(Term), bt), tEq(nv.(Term), tInt(-1))))
+				} else if c, ok := bound.(*ssa.Const); ok {
+					f.assume(tOr(tLt(nv.(Term), f.term(c)), tEq(nv.(Term), tInt(-1))))
+				}
+			}
+		}
 	}
 	// 3. assume the invariant
 	if li.spec != nil {
@@ -667,7 +687,12 @@ func (f *FnEnc) execInstrSafe(ins ssa.Instruction) (stop bool) {
 		if r := recover(); r != nil {
 			u, ok := r.(unsupported)
 			if !ok {
-				panic(r)
+				if re, isRT := r.(runtime.Error); isRT && os.Getenv("VCHECK_DEBUG") == "" {
+					// a value of unexpected shape inside the encoder: abstract the instruction
+					u = unsupported{why: "encoder: " + re.Error()}
+				} else {
+					panic(r)
+				}
 			}
 			// Unsupported construct: havoc everything and give the result an arbitrary value. This is a
 			// sound over-approximation; only constructs that could hide aliasing (hazards) taint.
@@ -846,4 +871,24 @@ func (f *FnEnc) noteArrView(elem types.Type) {
 		f.viewElem = map[string]bool{}
 	}
 	f.viewElem[typeKey(elem.Underlying())] = true
+}
+
+// rangeBound finds Y in the header pattern  t = phi+1; if t < Y.
+func rangeBound(b *ssa.BasicBlock, phi *ssa.Phi) ssa.Value {
+	ifi, ok := b.Instrs[len(b.Instrs)-1].(*ssa.If)
+	if !ok {
+		return nil
+	}
+	cmp, ok := ifi.Cond.(*ssa.BinOp)
+	if !ok || cmp.Op != token.LSS {
+		return nil
+	}
+	inc, ok := cmp.X.(*ssa.BinOp)
+	if !ok || inc.Op != token.ADD || inc.X != ssa.Value(phi) {
+		return nil
+	}
+	if c, ok := inc.Y.(*ssa.Const); !ok || c.Int64() != 1 {
+		return nil
+	}
+	return cmp.Y
 }
